@@ -107,3 +107,16 @@ fn search(check_loc: bool) {
         println!("VERIF-NATIVE: disagree {}", bad.join(" ; "));
     }
 }
+
+#[test]
+fn verif_native_template_location_known() {
+    // KNOWN FINDING template-location: an error inside the expansion of a derived form (let, cond, ...) is located at a line
+    // and column of the bundled grammar.sld, not in the user's text
+    let program = "(define y 1)\n\n\n\n\n\n\n\n\n\n\n\n(let ((x 5))\n  (x 1))\n";
+    let got = run(program);
+    let inside = |loc: Option<[u32; 2]>| loc.map(|l| l[0] >= 13 && l[0] <= 14).unwrap_or(false);
+    match got {
+        Ok((kind, loc)) if inside(loc) => println!("VERIF-NATIVE: ok a {} error inside a top-level let is located at {:?}, inside the form (lines 13-14)", kind, loc),
+        other => println!("VERIF-NATIVE: disagree a failing call inside a top-level let on lines 13-14 of the program is reported as {:?}: the location is that of the let TEMPLATE in the bundled grammar.sld", other),
+    }
+}
